@@ -414,6 +414,7 @@ func CheckC14(e *Env) int {
 	progs = append(progs, inventedParamNameFamily()...)
 	progs = append(progs, paramLocalCollisionFamily()...)
 	progs = append(progs, dirVsPackageNameFamily()...)
+	progs = append(progs, sameNamedValuesFamily()...)
 	results := RunPool(e, progs, PoolOpts{Execute: true, Name: "c14"})
 	byKey := map[key]*ProgResult{}
 	for _, pr := range results {
